@@ -321,8 +321,9 @@ def write_evidence(rep, mod, nviol):
         'coverage': cov, 'assumptions': meta.get('assumptions', []),
         'wall_s': round(time.time() - rep.t0, 2), 'violations': nviol,
     }
-    os.makedirs(os.path.join(ROOT, 'evidence'), exist_ok=True)
-    with open(os.path.join(ROOT, 'evidence', '%s.json' % rep.pid), 'w') as f:
+    evdir = os.environ.get('PYVC_EVIDENCE_DIR') or os.path.join(ROOT, 'evidence')
+    os.makedirs(evdir, exist_ok=True)
+    with open(os.path.join(evdir, '%s.json' % rep.pid), 'w') as f:
         json.dump(ev, f, indent=1, default=str)
 
 
